@@ -4,7 +4,7 @@ From AV.Model Require Import Base Bytes Vec Ops Interp.
 From AV.Spec Require Import VecSpec.
 From AV.Proofs Require Import MemLemmas Rep VecProofs TempProofs RangeProofs CapProofs CloneProofs NoFault HandleProofs.
 From AV.Spec Require Import WorldSpec.
-From AV.Proofs Require Import WorldCore.
+From AV.Proofs Require Import WorldCore WorldSplice.
 Arguments N.add : simpl never.
 Arguments N.sub : simpl never.
 Arguments N.mul : simpl never.
@@ -530,4 +530,144 @@ Proof.
   all: try exact Hfuse.
   all: try (cbn [s_nx ok_res]; lia).
   all: unfold uevents, drop_ev; rewrite Hdg; cbn; reflexivity.
+Qed.
+
+(** ** values written into the spare capacity, then set_len *)
+Fixpoint spare_go (c : cfg) (v : nat) (len : N) (n : nat) (i : N) : M world unit :=
+  match n with
+  | O => ret tt
+  | S n' => do t <- freshw c;
+            on_vec v (write_value c (bo c (len + i)) (VBytes (enc_c c t) true));;
+            spare_go c v len n' (i + 1)
+  end.
+Lemma spare_go_eq c v vv : forall n i w,
+  (fix go (n : nat) (i : N) {struct n} : M world unit :=
+     match n with
+     | O => ret tt
+     | S n' => do t <- freshw c;
+               on_vec v (write_value c (bo c (vlen vv + i)) (VBytes (enc_c c t) true));;
+               go n' (i + 1)
+     end) n i w = spare_go c v (vlen vv) n i w.
+Proof.
+  induction n as [|n IH]; intros i w; [reflexivity|].
+  cbn [spare_go]. unfold bind. destruct (freshw c w) as [t w1|p w1|f]; try reflexivity.
+  destruct (on_vec v (write_value c (bo c (vlen vv + i)) (VBytes (enc_c c t) true)) w1) as [x w2|p w2|f]; try reflexivity.
+  apply IH.
+Qed.
+Lemma exec_spare_unfold c a v k w :
+  exec c (OSpareWrite a v k) w
+  = (do vv <- peek_vec v; spare_go c v (vlen vv) (N.to_nat k) 0;; on_vec v (set_len c (vlen vv + k));; ret (0, @nil N)) w.
+Proof.
+  cbn [exec].
+  assert (Hext : forall S A B (m : M S A) (f g : A -> M S B) s, (forall a s', f a s' = g a s') -> bind m f s = bind m g s).
+  { intros S0 A B m f g s H. unfold bind. destruct (m s); auto. }
+  apply Hext. intros vv w1.
+  assert (Hm : forall S A B (m m' : M S A) (f : A -> M S B) s, m s = m' s -> bind m f s = bind m' f s).
+  { intros S0 A B m m' f s H. unfold bind. rewrite H. reflexivity. }
+  apply Hm. apply spare_go_eq.
+Qed.
+
+Lemma spare_go_spec c v vv0 : store_ok c vv0 -> forall n done w,
+  get_vec v w = Some (with_mem (mwrite (N.to_nat (vlen vv0) * szn c) (flat (szn c) done) (vmem vv0)) vv0) ->
+  N.of_nat (N.to_nat (vlen vv0) + length done + n) <= vcap vv0 ->
+  exists w',
+    spare_go c v (vlen vv0) n (N.of_nat (length done)) w = Ok tt w' /\
+    get_vec v w' = Some (with_mem (mwrite (N.to_nat (vlen vv0) * szn c)
+                                          (flat (szn c) (done ++ next_ids c (unext (wuw w)) n)) (vmem vv0)) vv0) /\
+    (forall k, k <> v -> slot k (wv w') = slot k (wv w)) /\
+    unext (wuw w') = unext (wuw w) + N.of_nat n /\ ufuse (wuw w') = ufuse (wuw w) /\ ulog (wuw w') = ulog (wuw w).
+Proof.
+  intros Hst. induction n as [|n IH]; intros done w Hg Hcap.
+  - exists w. cbn [spare_go next_ids seq map]. rewrite app_nil_r. unfold ret. repeat split; auto. lia.
+  - cbn [spare_go]. unfold bind at 1. unfold freshw. fold (tok c (unext (wuw w))).
+    set (t := tok c (unext (wuw w))). set (w1 := bump w).
+    change ({| wv := wv w; wuw := {| ulog := ulog (wuw w); unext := unext (wuw w) + 1; ufuse := ufuse (wuw w) |} |}) with w1.
+    set (L := N.to_nat (vlen vv0)) in *.
+    set (m := mwrite (L * szn c) (flat (szn c) done) (vmem vv0)) in *.
+    set (vi := with_mem m vv0) in *.
+    assert (Hg1 : get_vec v w1 = Some vi) by exact Hg.
+    assert (Hlen_m : length m = length (vmem vv0)).
+    { unfold m. apply mwrite_length. rewrite flat_length. unfold store_ok in Hst. rewrite cap_bytes in Hst. nia. }
+    assert (Hsti : store_ok c vi) by (unfold store_ok, vi; cbn [vcap vmem with_mem]; rewrite Hlen_m; exact Hst).
+    assert (Ebo : bo c (vlen vv0 + N.of_nat (length done)) = ((L + length done) * szn c)%nat).
+    { unfold bo, szn, L. lia. }
+    pose proof (write_value_ok c vi (wuw w1) (L + length done) t true Hsti) as Ew.
+    assert (Hle1 : N.of_nat (L + length done + 1) <= vcap vi) by (unfold vi; cbn [vcap with_mem]; lia).
+    specialize (Ew Hle1).
+    unfold bind at 1. rewrite Ebo. unfold enc_c.
+    rewrite (on_vec_ok v _ w1 vi tt _ (wuw w1) Hg1 Ew).
+    set (w2 := put_vec v (Some (with_mem (mwrite ((L + length done) * szn c) (enc (szn c) t) (vmem vi)) vi)) (wuw w1) w1).
+    assert (Em2 : with_mem (mwrite ((L + length done) * szn c) (enc (szn c) t) (vmem vi)) vi
+                  = with_mem (mwrite (L * szn c) (flat (szn c) (done ++ [t])) (vmem vv0)) vv0).
+    { unfold vi. cbn [vmem with_mem]. unfold with_mem. cbn [vlen vcap vgen vbk]. f_equal.
+      unfold m. rewrite flat_app. cbn [flat app]. rewrite app_nil_r.
+      replace ((L + length done) * szn c)%nat with (L * szn c + length (flat (szn c) done))%nat by (rewrite flat_length; lia).
+      apply mwrite_mwrite_app. unfold store_ok in Hst. rewrite cap_bytes in Hst. nia. }
+    destruct (IH (done ++ [t]) w2) as (w' & E & Hg' & Ho' & Hn' & Hf' & Hl').
+    { unfold w2. rewrite get_vec_put_same. f_equal. exact Em2. }
+    { rewrite app_length. cbn [length]. lia. }
+    rewrite app_length in E. cbn [length] in E.
+    replace (N.of_nat (length done) + 1) with (N.of_nat (length done + 1)) by lia.
+    exists w'. split; [exact E|]. split; [|split; [|split; [|split]]].
+    + rewrite Hg'. f_equal. f_equal. f_equal. rewrite <- app_assoc. cbn [app]. f_equal.
+      rewrite next_ids_S. reflexivity.
+    + intros k Hk. rewrite (Ho' k Hk). unfold w2, put_vec. cbn [wv]. rewrite slot_set_nth.
+      destruct (Nat.eqb_spec k v); [contradiction|reflexivity].
+    + rewrite Hn'. unfold w2. rewrite wuw_put. unfold w1, bump. cbn [wuw unext]. lia.
+    + rewrite Hf'. reflexivity.
+    + rewrite Hl'. reflexivity.
+Qed.
+
+Lemma exec_spare_write c w st a v k r :
+  cfg_wf c -> WRep c w st -> ufuse (wuw w) = None ->
+  sp_spare_write c st (unext (wuw w)) v k = Some r ->
+  (forall vv, get_vec v w = Some vv -> vlen vv + k <= vcap vv) ->
+  res_matches c w (exec c (OSpareWrite a v k) w) r.
+Proof.
+  intros Hwf HW Hfuse Hr Hadm. unfold sp_spare_write in Hr.
+  destruct (get_a v st) as [av|] eqn:Hga; [|discriminate]. injection Hr as <-.
+  destruct (wrep_get c w st v av HW Hga) as (vv & Hg & HV).
+  pose proof (vi_rep _ _ _ HV) as HR. pose proof (rep_len _ _ _ HR) as Hlen. specialize (Hadm vv Hg).
+  set (xs := a_xs av) in *. set (n := N.to_nat k). set (ts := next_ids c (unext (wuw w)) n).
+  rewrite exec_spare_unfold. rewrite (bind_ok _ _ _ _ _ (peek_vec_ok v w vv Hg)).
+  assert (Hst : store_ok c vv) by apply (rep_store _ _ _ HR).
+  destruct (spare_go_spec c v vv Hst n [] w) as (w' & E & Hg' & Ho' & Hn' & Hf' & Hl').
+  { cbn [flat]. rewrite mwrite_nil, with_mem_id. exact Hg. }
+  { cbn [length]. unfold n. lia. }
+  cbn [length] in E. change (N.of_nat 0) with 0 in E. fold n. rewrite (bind_ok _ _ _ _ _ E).
+  cbn [app] in Hg'. fold ts in Hg'.
+  set (L := N.to_nat (vlen vv)) in *.
+  set (v3 := with_mem (mwrite (L * szn c) (flat (szn c) ts) (vmem vv)) vv) in *.
+  assert (HL : L = length xs) by (unfold L; lia).
+  assert (Hlts : length ts = n) by apply next_ids_length.
+  assert (Hb : (L * szn c + length (flat (szn c) ts) <= length (vmem vv))%nat).
+  { rewrite flat_length, Hlts. unfold store_ok in Hst. rewrite cap_bytes in Hst. unfold n. nia. }
+  assert (Hst3 : store_ok c v3).
+  { unfold store_ok, v3. cbn [vcap vmem with_mem]. rewrite mwrite_length; [exact Hst|exact Hb]. }
+  assert (Hp3 : Held c v3 0 xs).
+  { change (HeldM (szn c) (vmem v3) 0 xs). unfold v3. cbn [vmem with_mem].
+    apply heldm_mwrite_before; [exact (rep_held c vv xs HR)|lia|lia]. }
+  assert (Ht3 : Held c v3 (length xs) ts).
+  { change (HeldM (szn c) (vmem v3) (length xs) ts). unfold v3. cbn [vmem with_mem]. rewrite <- HL.
+    apply heldm_mwrite_at. lia. }
+  assert (Eset : set_len c (vlen vv + k) (v3, wuw w') = Ok tt (with_len (vlen vv + k) v3, wuw w')).
+  { unfold set_len, bind, getv, assert_. cbn [fst snd]. unfold v3 at 1. cbn [vcap with_mem].
+    rewrite (proj2 (N.leb_le _ _) Hadm), Bool.orb_true_r. reflexivity. }
+  rewrite (bind_ok _ _ _ _ _ (on_vec_ok v _ w' v3 tt _ _ Hg' Eset)). unfold ret.
+  cbn [res_matches ok_res s_out s_pk s_ret s_st s_evs s_nx].
+  split; [reflexivity|split; [reflexivity|split; [reflexivity|]]].
+  constructor.
+  - intros j. unfold put_vec, set_a. cbn [wv]. rewrite !slot_set_nth.
+    destruct (Nat.eqb_spec j v) as [->|Hne]; [|rewrite (Ho' j Hne); apply HW].
+    destruct HV as [_ Hbk Hbw Hcap Hfits]. constructor; cbn [with_xs a_bk a_xs with_len v3 with_mem vbk vcap]; auto.
+    apply rep_of_held; cbn [vlen vcap with_len v3 with_mem].
+    + rewrite app_length, Hlts. unfold n. lia.
+    + exact Hadm.
+    + apply (rep_usize _ _ _ HR).
+    + exact Hst3.
+    + apply held_app; [exact Hp3|exact Ht3].
+    + apply Forall_app. split; [apply (rep_tok _ _ _ HR)|apply next_ids_tok_ok].
+  - rewrite wuw_put, Hn'. unfold n. cbn [s_nx ok_res]. lia.
+  - rewrite wuw_put, Hf'. exact Hfuse.
+  - rewrite wuw_put. unfold uevents. rewrite Hl'. reflexivity.
 Qed.
